@@ -498,6 +498,9 @@ fn run_stratum(
                     let mut failure = None;
                     match st.kind {
                         Kind::Random { cases, max_len } => {
+                            // VERIF_BUDGET_DIV: developer knob to shrink random budgets for experiments
+                            let div = std::env::var("VERIF_BUDGET_DIV").ok().and_then(|s| s.parse::<u64>().ok()).unwrap_or(1).max(1);
+                            let cases = (cases / div).max(1);
                             let my = cases / workers as u64
                                 + if (w as u64) < cases % workers as u64 { 1 } else { 0 };
                             if my > 0 {
@@ -587,7 +590,7 @@ fn run_stratum(
                         }
                         Kind::Exhaustive { total } => {
                             // contiguous chunks, interleaved by blocks so that workers are balanced
-                            let block = 4096u64;
+                            let block = (total / (workers as u64 * 4)).clamp(1, 4096);
                             let mut start = w as u64 * block;
                             'outer: while start < total {
                                 let end = (start + block).min(total);
